@@ -952,3 +952,52 @@ def rule_counter_wrap_guard(ctx):
                 ctx.violated("COUNTERWRAP", key, f.where(line), "the 16-bit counter `%s` is incremented on a path where it was not compared with a limit: it wraps, and what it counted is lost to every later call" % shown)
     ctx.floor("COUNTERWRAP", 3, n, "(increments of 16-bit counter fields)")
     return n
+
+
+def rule_limit_test_alive(ctx):
+    """LIMITDEAD (C20, C07): a limit test `v > LIMIT` only protects anything if v can exceed LIMIT.  When the value was narrowed
+    to an unsigned type whose largest value is <= LIMIT in the assignment that feeds the test (`v = (uint16)(a + b); if (v > 65535)`),
+    the sum has already wrapped and the test can never fire: an over-long record or field is accepted with a wrapped size.
+    Instances: every comparison of a local with a named limit constant whose last assignment in the same basic block is visible."""
+    prog = ctx.prog
+    n = 0
+    occ = {}
+    for f in prog.lib_funcs():
+        for bid, b in sorted(f.blocks.items(), key=lambda kv: (kv[1].get("term") or {}).get("l", 0) if isinstance(kv[1].get("term"), dict) else 0):
+            t = b.get("term")
+            if not t or t.get("cond") is None:
+                continue
+            for c in walk(t["cond"], True):
+                if not (c[0] == "bin" and c[1] in (">", ">=") and kind(strip(c[2])) == "var" and is_int(c[3]) and len(strip(c[3])) > 2 and strip(c[3])[2] and int_val(c[3]) >= 255):
+                    continue
+                v = strip(c[2])[1]
+                last = None
+                for s in b.get("s", []):
+                    for x in walk(s["e"], True):
+                        if x[0] == "asg" and x[1] == "=" and kind(strip(x[2])) == "var" and strip(x[2])[1] == v:
+                            last = (x, s)
+                if last is None:
+                    continue
+                n += 1
+                x, s = last
+                r = unseen(x[3])
+                key = "LIMITDEAD:%s:%s>%s" % (f.name, v, strip(c[3])[2])
+                occ[key] = occ.get(key, 0) + 1
+                if occ[key] > 1:
+                    key += "#%d" % occ[key]
+                dead = False
+                if kind(r) == "cast":
+                    bits = prog.int_bits(r[1])
+                    bits = bits if isinstance(bits, tuple) else (bits, None)
+                    if bits[0] and bits[0] < 32 and not (bits[1] if bits[1] is not None else r[1].startswith(("int", "short", "char", "signed"))):
+                        mx = (1 << bits[0]) - 1
+                        lim = int_val(c[3]) - (1 if c[1] == ">=" else 0)
+                        inner = strip(r[2])
+                        if mx <= lim and kind(inner) == "bin":
+                            dead = True
+                if dead:
+                    ctx.violated("LIMITDEAD", key, f.where(s.get("l", f.line)), "`%s` is narrowed by `%s` before it is compared with %s: the narrowed value cannot exceed the limit, so the test never fires and a wrapped value is accepted" % (v, render(r)[:60], strip(c[3])[2]))
+                else:
+                    ctx.holds("LIMITDEAD", key, f.where(s.get("l", f.line)), "`%s` reaches the test against %s unnarrowed" % (v, strip(c[3])[2]), nontrivial=True)
+    ctx.floor("LIMITDEAD", 5, n, "(limit tests on a local assigned in the same block)")
+    return n
